@@ -625,7 +625,7 @@ fn main() {
                                 }
                                 let mut sb = Subst { pairs: &l.f.subst, hits: vec![0; l.f.subst.len()], bad: vec![] };
                                 sb.visit_expr_mut(&mut ex);
-                                for (i, h) in sb.hits.iter().enumerate() { if *h == 0 { ctx.problems.push(format!("LOST-ANCHOR @subst `{}` does not occur in let {} of {}", l.f.subst[i].0, l.binder, l.path)); } }
+                                // zero occurrences is not an error: the lifted text then simply ignores the parameter and the contract decides
                                 for b in &sb.bad { ctx.problems.push(format!("SPEC-ERROR @subst target {}", b)); }
                                 let n_subst: usize = sb.hits.iter().sum();
                                 // the documented form is Verus-style `name(args) -> (r: T)`; syn needs `-> T`, the name becomes @ret
